@@ -656,6 +656,31 @@ def correspond(res, tier, nworld, nfs):
                 max_timed_join_s=max([o.get('timed_join_s', 0) for c, o in zip(cases, outs) if c['kind'] == 'real'] or [0]))
 
 
+def nested_children(res):
+    """grandchildren: a process started under fork / spawn / forkserver starts children of its own under an
+    explicit fork / spawn context: exit(3), normal return and SIGKILL are reported as 3, 0, -9, the child is no
+    longer alive or listed after join() -- whatever signal dispositions the intermediate process inherited"""
+    outs = core.run_driver('nested_driver.py', dict(), timeout=400)
+    want = dict(exit3=3, kill9=-9)
+    n = 0
+    for r in outs:
+        g = r['grandchildren']
+        if not isinstance(g, list):
+            res.alarms.append(dict(signature='C19:nested-child-report-missing', what='%s child starting %s children: %s (middle exit %s)'
+                                   % (r['outer'], r['inner'], g, r['middle_exit']), replay=dict(case=dict(kind='nested', outer=r['outer'], inner=r['inner']), impl=r)))
+            continue
+        for x in g:
+            n += 1
+            exp = want.get(x['how'], 0)
+            if x['exitcode'] != exp or x['alive'] or x['listed']:
+                res.alarms.append(dict(signature='C19:exit-status-of-grandchild-not-reported',
+                                       what='a %s child starts a %s child that ends by %s: after join() exitcode is %s (expected %s), is_alive() %s, '
+                                            'listed among the active children: %s' % (r['outer'], r['inner'], x['how'], x['exitcode'], exp, x['alive'], x['listed']),
+                                       replay=dict(case=dict(kind='nested', outer=r['outer'], inner=r['inner']), impl=r)))
+                break
+    res.add_cov(evaluations=n, traces=n, nested_children=n)
+
+
 def run(res):
     res.proof_step('Props/C19.v', extra_targets=['Model/ExitStatus.vo'],
                    kernels_needed=['K_exitstatus', 'K_procguard'])
@@ -663,6 +688,7 @@ def run(res):
     if res.broken:
         nworld, nfs = max(nworld, 4000), max(nfs, 400)      # failing-input search
     correspond(res, res.tier, nworld, nfs)
+    nested_children(res)
     res.assumptions += [
         'os.waitpid, the sentinel wait and os.getpid are oracles (any answer sequence); the kernel reports exit(n) as '
         '(n mod 256)<<8 and death by signal s as s (+128 with core) -- Lib/ExitStatusWait.v, compared with os.W* on all '
@@ -683,6 +709,14 @@ def replay(path):
         print(json.dumps(d.get('broken'), indent=1)[:3000])
         return 1
     c = d['replay']['case']
+    if c.get('kind') == 'nested':
+        bad = 0
+        for r in core.run_driver('nested_driver.py', dict(), timeout=400):
+            if r['outer'] == c['outer'] and r['inner'] == c['inner']:
+                print(json.dumps(r))
+                g = r['grandchildren']
+                bad += (not isinstance(g, list)) or any(x['exitcode'] != dict(exit3=3, kill9=-9).get(x['how'], 0) or x['alive'] or x['listed'] for x in g)
+        return 1 if bad else 0
     out = core.run_driver('proc_driver.py', [c])[0]
     print('case:', json.dumps(c))
     print('implementation then:', json.dumps(d['replay'].get('impl')))
